@@ -19,7 +19,9 @@ TRUSTED = [
 ]
 ASSUME = ['PyFilesystem2 (OSFS, MemoryFS, SubFS path joining) is used as is', 'Python\'s str.lower / UTF-16 codec on both sides of the oracle']
 
-SEGS = ['title', 'Title', 'DATA', 'extdata', '00040000', '0F70C600', 'content', 'Ärger', '日本', 'a b', '\U0001F600x', 'x.y', 'dbs', 'Backup']
+# incl. characters whose str.lower() differs from casefold() / upper().lower(): sharp s, final sigma, ligatures, dotted capital I
+SEGS = ['title', 'Title', 'DATA', 'extdata', '00040000', '0F70C600', 'content', 'Ärger', '日本', 'a b', '\U0001F600x', 'x.y', 'dbs', 'Backup',
+        'Straße', 'ΟΔΟΣ', 'ὈΔΥΣΣΕΎΣ', 'ﬁle', 'İstanbul', 'ǅ']
 
 
 def gen_path(rng):
